@@ -402,7 +402,7 @@ def stress(ctx):
                 sib = t.sort_order(list(spec.ids(axis)), axis=axis)
                 before, sb = snap.snap(t), snap.snap(sib)
                 pick = r.sample(ids, k)
-                mp = {i: i[:-1] + 'x' for i in pick}     # same width
+                mp = {i: 'x' + i[1:] for i in pick}     # same width, distinct
                 desc = {'scale': 'update_ids %r on %d %s ids (%s)' %
                         (mp, n, axis, recipe)}
                 res = t.update_ids(dict(mp), axis=axis, strict=False,
